@@ -112,9 +112,11 @@ type NoReturn struct {
 	Kind    string // "var" or "field"
 	Name    string // global name, or Struct.Field
 	PkgPath string
+	Arrays  []string
 }
 
 type ContractSet struct {
+	Mutators  []NoReturn // callbacks (struct fields holding user functions) that may reconfigure the object graph through the public API
 	NoReturns []NoReturn
 	Funcs  map[string]*Contract // key: pkgpath + "::" + Key
 	Specs  []*SpecFunc
@@ -123,7 +125,7 @@ type ContractSet struct {
 	Files  []string
 }
 
-var kwRe = regexp.MustCompile(`^(func|pure|axiom|lemma|requires|ensures|panics|exits|loop|decreases|inline|trusted|nopanic|let|maypanic|mayexit|modifies|use|induct|logged|reveal|noreturn|norefine|end)\b`)
+var kwRe = regexp.MustCompile(`^(func|pure|axiom|lemma|requires|ensures|panics|exits|loop|decreases|inline|trusted|nopanic|let|maypanic|mayexit|modifies|use|induct|logged|reveal|noreturn|norefine|mutator|end)\b`)
 
 type rawLine struct {
 	text string
@@ -248,6 +250,17 @@ func parseContractLines(lines []rawLine, fname, pkgPath string, cs *ContractSet)
 				return fmt.Errorf("%s:%d: noreturn var <name> | noreturn field <Struct.Field>", fname, s.line)
 			}
 			cs.NoReturns = append(cs.NoReturns, NoReturn{Kind: parts[0], Name: parts[1], PkgPath: pkgPath})
+			cur, curLemma = nil, nil
+		case "mutator":
+			// mutator field Struct.Field : H_a, H_b, ...   (heap arrays a call through this field may change)
+			parts := strings.SplitN(rest, ":", 2)
+			hd := strings.Fields(parts[0])
+			if len(hd) != 2 || hd[0] != "field" || len(parts) != 2 {
+				return fmt.Errorf("%s:%d: mutator field <Struct.Field> : <heap arrays>", fname, s.line)
+			}
+			m := NoReturn{Kind: "field", Name: hd[1], PkgPath: pkgPath}
+			m.Arrays = strings.Fields(strings.ReplaceAll(parts[1], ",", " "))
+			cs.Mutators = append(cs.Mutators, m)
 			cur, curLemma = nil, nil
 		case "mayexit":
 			if cur != nil {
